@@ -70,8 +70,69 @@ def run_case(case):
         sc.destroy()
 
 
+ASSUMPTIONS = ["ledger oracle: AI claim on a line is sound iff that session introduced the line's content key (decoys: ever introduced)",
+               "the same monitor also rides on every other scenario-based check (C01, C02, C04, C08, C12-C15)",
+               "bounded-exhaustive part: pending-state kind x discarding command x follow-up table (vf/props/c03_matrix.py); cells in which the "
+               "command does not discard the work are counted as not applicable"]
+
+
+def run_matrix(rep, tier):
+    """The deterministic (pending state x discarding command x follow-up) table; see c03_matrix.py."""
+    from . import c03_matrix as M
+    from .. import runner as R
+    known = [e for e in R.load_known("C03") if e.get("status") == "open" and e.get("cells")]
+    cells = M.cells()
+    if tier != "thorough":
+        cells = [c for c in cells if c.endswith("|person")]    # the other two follow-ups (unreported person, another session) run in the thorough tier
+    res = R.run_pool(M.run_cell, [dict(cell=c) for c in cells], 240 if tier != "thorough" else 600)
+    by_finding = {}
+    failing = []
+    for r in res:
+        rep.evaluations += 1
+        for k, v in (r.get("stats") or {}).items():
+            if isinstance(v, (int, float)):
+                rep.counters[k] += v
+        rep.counters["matrix_cells_run"] += 1
+        if r.get("inconclusive"):
+            rep.inconclusive.append(dict(case=r.get("case"), why=str(r["inconclusive"])[:300]))
+            continue
+        if not r.get("applicable"):
+            rep.counters["matrix_cells_not_applicable"] += 1
+            continue
+        rep.sigs.add(r["sig"])
+        if not r.get("viol"):
+            rep.counters["matrix_cells_held"] += 1
+            continue
+        kinds = sorted({v["kind"] for v in r["viol"]})
+        e = M.classify(r["cell"], known)
+        if e is not None and all(k.split("@")[0] in e.get("cell_kinds", []) for k in kinds):
+            by_finding.setdefault(e["id"], []).append(r["cell"])
+            rep.counters["matrix_cells_failing_known"] += 1
+        else:
+            failing.append(r["cell"])
+            for k in kinds:
+                rep.viol_kinds[k] += 1
+            if len(rep.violations) < 8:
+                rep.violations.append((kinds[0], rep.write_replay(r, "matrix")))
+    for fid, cs in sorted(by_finding.items()):
+        rep.known_finding("%s matrix cells (pending state|discard|follow-up) failing as listed: %s" % (fid, " ".join(sorted(cs))))
+    rep.extra["matrix"] = dict(cells_total=len(cells), known_failing={k: sorted(v) for k, v in by_finding.items()}, unlisted_failing=failing)
+    if len(res) < len(cells):
+        rep.inconclusive.append(dict(case="matrix", why="only %d of %d cells finished inside the budget" % (len(res), len(cells))))
+
+
 def main(tier, seed, replay=None):
-    return C.standard_main("C03", run_case, RULE, "exploration",
-                           ["ledger oracle: AI claim on a line is sound iff that session introduced the line's content key (decoys: ever introduced)",
-                            "the same monitor also rides on every other scenario-based check (C01, C02, C04, C08, C12-C15)"],
-                           tier, seed, replay, 50, 480)
+    import json
+    from .. import runner as R
+    if replay:
+        j = json.load(open(replay))
+        if (j.get("case") or {}).get("cell"):
+            from . import c03_matrix as M
+            rep = R.Report("C03", tier, seed, "exploration", RULE, ASSUMPTIONS)
+            r = R._worker((M.run_cell, j["case"]))
+            for l in r.get("log") or []:
+                R.log("  ", l)
+            rep.add_results([r])
+            return rep.finish(min_nontrivial=0)
+        return C.standard_main("C03", run_case, RULE, "exploration", ASSUMPTIONS, tier, seed, replay, 50, 480)
+    return C.standard_main("C03", run_case, RULE, "exploration", ASSUMPTIONS, tier, seed, replay, 50, 480, before_pool=lambda rep: run_matrix(rep, tier))
